@@ -164,9 +164,9 @@ func buildMessage(pkg string, mi int, m absd.Msg, sci *descriptor.SourceCodeInfo
 	for _, o := range m.Oneofs {
 		dp.OneofDecl = append(dp.OneofDecl, &descriptor.OneofDescriptorProto{Name: proto.String(o)})
 	}
-	if m.Comment != "" && sci != nil {
+	if len(m.Comment) > 0 && sci != nil {
 		sci.Location = append(sci.Location, &descriptor.SourceCodeInfo_Location{
-			Path: []int32{4, int32(mi)}, LeadingComments: proto.String(m.Comment)})
+			Path: []int32{4, int32(mi)}, LeadingComments: proto.String(absd.Raw(m.Comment))})
 	}
 	for fi, f := range m.Fields {
 		fd := &descriptor.FieldDescriptorProto{Name: proto.String(f.Name), Number: proto.Int32(int32(f.Num)), JsonName: proto.String(jsonName(f.Name))}
@@ -239,9 +239,9 @@ func buildMessage(pkg string, mi int, m absd.Msg, sci *descriptor.SourceCodeInfo
 		if hasOpts {
 			fd.Options = opts
 		}
-		if f.Comment != "" && sci != nil {
+		if len(f.Comment) > 0 && sci != nil {
 			sci.Location = append(sci.Location, &descriptor.SourceCodeInfo_Location{
-				Path: []int32{4, int32(mi), 2, int32(fi)}, LeadingComments: proto.String(f.Comment)})
+				Path: []int32{4, int32(mi), 2, int32(fi)}, LeadingComments: proto.String(absd.Raw(f.Comment))})
 		}
 		dp.Field = append(dp.Field, fd)
 	}
